@@ -136,10 +136,14 @@ def run(ctx):
         for bid in sorted(layout["bands"], key=int):
             steps.append({"op": "list", "band": int(bid)})
             queries.append((int(bid), "/"))
-            if ctx.rng.random() < 0.5:
-                s = ctx.rng.choice(["/a", "/ab", "/a/x", "/b", "/ñ", "/zz"])
-                steps.append({"op": "list", "band": int(bid), "subtree": s})
-                queries.append((int(bid), s))
+            # subtree selections: paths of the alphabet (directories and files alike: the selected path's own entry may come
+            # from an older band than the entries before it) and an absent one
+            b_ = layout["bands"][bid]
+            open_band = b_.get("tail") in (False, None)
+            for s in ctx.rng.sample(["/a", "/ab", "/a/x", "/b", "/ñ", "/zz", "/a/y", "/b/ñ", "/a/x/z", "/~", "/ab/x"], 3 if open_band else 1):
+                if open_band or ctx.rng.random() < 0.5:
+                    steps.append({"op": "list", "band": int(bid), "subtree": s})
+                    queries.append((int(bid), s))
         cases.append({"id": f"l{t}", "layout": layout, "queries": queries, "steps": steps})
     # exhaustive over the STATE of three stacked bands (fixed entries: each older band reaches further)
     fixed = {0: [["/", "/a"], ["/ab", "/b", "/a/x"], ["/a/y", "/b/ñ"]], 1: [["/", "/a", "/ab"], ["/b", "/a/x"]], 2: [["/", "/a"]]}
